@@ -225,7 +225,7 @@ pub fn run(tier: Tier) -> i32 {
 }
 
 pub fn replay(case: &serde_json::Value) -> Result<(), Violation> {
-    if case.get("kind").and_then(|k| k.as_str()) == Some("establishment") {
+    if case.get("kind").and_then(|k| k.as_str()) == Some("establishment") || case.get("sub").is_some() {
         return super::c14b::replay(case);
     }
     let c: Case = serde_json::from_value(case["case"].clone()).map_err(|_| Violation::new("C14:machinery", "bad replay file", json!({})))?;
